@@ -866,6 +866,11 @@ const SIGMA_WIDE: [&str; 32] = [
   "a", "Z", "1", "F", ":", ".", "%", "/", "?", "#", "+", "{", " ", "\n", "é", "~", "A", "f", "0", "-", "_", "@", "!", "=", "&", "\t", "\u{0}", "\u{7f}", "\u{a0}", "%41", "%4", "%e2%82%AC",
 ];
 
+/// Token-level alphabet: whole, truncated and non-hex percent triplets are single symbols, so that short
+/// sequences reach "a valid %HH triplet immediately followed by an illegal character / a delimiter / the end"
+/// inside every component.
+const TOKENS: [&str; 23] = ["a", "Z", "1", ":", ".", "-", "_", "%41", "%2F", "%4", "%G1", "%", "/", "?", "#", "+", "=", "&", "{", " ", "\n", "é", "~"];
+
 /// Number of strings over an alphabet of `a` symbols of length ≤ n.
 fn tree_size(a: usize, n: u32) -> u64 {
   (0..=n).map(|k| (a as u64).pow(k)).sum()
@@ -907,6 +912,50 @@ fn run_tree(ctx: &Ctx, part: &str, sigma: &'static [&'static str], heads: &[&str
   ctx.add_transitions(total);
   ctx.add_traces(total);
   ctx.part(part, json!({"engine": "E1 full product over the prefix tree", "alphabet_symbols": sigma.len(), "heads": heads, "max_suffix_symbols": n, "strings": total}));
+}
+
+/// Token sequences as arguments of every setter / join: (base, op, prefix written before the sequence).
+fn run_token_ops(ctx: &Ctx, n: u32) {
+  let size = tree_size(TOKENS.len(), n);
+  let mut table: Vec<(&'static str, Op, &'static str)> = Vec::new();
+  for base in ["did:m:x", "did:m:x/p?q#f"] {
+    for d in ["/", "?", "#"] {
+      table.push((base, Op::Join, d));
+    }
+    // with and without the leading delimiter each setter tolerates / requires
+    for (op, d) in [(Op::SetPath, "/"), (Op::SetQuery, "?"), (Op::SetFragment, "#")] {
+      table.push((base, op.clone(), d));
+      table.push((base, op, ""));
+    }
+  }
+  for base in ["did:m:x", "did:m:x:y"] {
+    for op in [Op::SetMethodName, Op::SetMethodId] {
+      table.push((base, op, ""));
+    }
+  }
+  let total = size * table.len() as u64;
+  let arg_of = |idx: u64| {
+    let (base, op, pre) = &table[(idx / size) as usize];
+    let mut a = String::from(*pre);
+    tree_string(&TOKENS, idx % size, &mut a);
+    (*base, op.clone(), a)
+  };
+  (0..total)
+    .into_par_iter()
+    .fold(Local::default, |mut l, idx| {
+      let (base, op, a) = arg_of(idx);
+      eval_op(ctx, base, &op, Some(&a), &mut l);
+      l
+    })
+    .for_each(|l| l.merge(ctx));
+  for idx in [0, total / 3, total / 2, total - 1] {
+    let (base, op, a) = arg_of(idx);
+    ctx.sample("token ops", &Case::Op { base: base.into(), op, arg: Some(a) });
+  }
+  ctx.add_states(total);
+  ctx.add_transitions(total);
+  ctx.add_traces(total);
+  ctx.part("token sequences as arguments of join / set_* (2 bases) and set_method_* (2 bases)", json!({"engine": "E1 full product", "tokens": TOKENS, "max_tokens": n, "rows(base,op,prefix)": table.len(), "cases": total}));
 }
 
 fn run_list(ctx: &Ctx, part: &str, cases: &[Case]) {
@@ -957,6 +1006,10 @@ fn generate(ctx: &Ctx) {
   run_tree(ctx, "tree did:m:", &SIGMA, &["did:m:"], n);
   let nw = ctx.by_tier(3u32, 5u32);
   run_tree(ctx, "tree did:m: (wide alphabet)", &SIGMA_WIDE, &["did:m:"], nw);
+  // token-level tree (amendment): tails of "did:m:x", and the same sequences as setter / join arguments
+  let nt = ctx.by_tier(3u32, 4u32);
+  run_tree(ctx, "token tree did:m:x", &TOKENS, &["did:m:x", "did:m:"], nt);
+  run_token_ops(ctx, nt);
   // (b) leading whitespace / control / non-ASCII space, and perturbed heads
   let lead: Vec<String> = [" ", "\n", "\t", "\r", "\u{0}", "\u{1f}", "\u{7f}", "\u{a0}", "\u{feff}", "  ", "\r\n", " \n\t "].iter().map(|w| format!("{w}did:m:")).collect();
   let lead_ref: Vec<&str> = lead.iter().map(|s| s.as_str()).collect();
@@ -1129,6 +1182,8 @@ fn generate(ctx: &Ctx) {
   run_list(ctx, "did:jwk ids x substitutions/truncations/suffixes", &jc);
   ctx.bound("alphabet", SIGMA);
   ctx.bound("wide_alphabet", SIGMA_WIDE);
+  ctx.bound("tokens", TOKENS);
+  ctx.bound("token_sequences_max_tokens", nt);
   ctx.bound("wide_tree_max_suffix_symbols", nw);
   ctx.bound("tree_max_suffix_symbols", n);
   ctx.bound("op_argument_max_symbols", k);
